@@ -133,6 +133,12 @@ def typedB : Path → Content → Bool
   | .other _, _ => true
   | _, _ => false
 
+/-- A `.pack` and an `.idx` of the same name belong together (the index names the pack's checksum).
+`Pack.data` checks this when it loads the pair (`check_length_and_checksum`) and RAISES on a mismatch, which
+breaks every read that walks the packs — a mismatched pair is not merely invisible, it poisons the store. -/
+def PairedAt (s : FS) (p : Nat) : Prop :=
+  ∀ k k' objs, s (.pack p) = some (.packData k) → s (.idx p) = some (.idxData k' objs) → k = k'
+
 /-! ## Specification of one operation -/
 
 abbrev Known := List (Path × Option Content)
@@ -162,6 +168,7 @@ structure Pre (spec : Spec) (G : Nat → List Nat) (s : FS) : Prop where
   consistent : ∀ o, Reach G s o → Vis s o
   garbage : ∀ o, o ∈ spec.garbage → ¬ Reach G s o
   typed : ∀ p c, s p = some c → typedB p c = true
+  paired : ∀ p, PairedAt s p
 
 def RefOldOrNew (spec : Spec) (s0 s : FS) (r : Nat) : Prop :=
   rawRef s r = rawRef s0 r ∨ ∃ e ∈ spec.newRefs, e.1 = r ∧ rawRef s r = e.2
@@ -178,13 +185,15 @@ instance (spec : Spec) (s0 s : FS) (n : Nat) : Decidable (PlainOldOrNew spec s0 
 /-- The property's words about the state `s` a crash leaves, `s0` being the state before the
 operation: every ref holds its old or its new value; every ref names an object that is visible
 together with everything it reaches; everything reachable before is still visible; index/config hold
-the old or the new content; no half-written file sits at a data path. -/
+the old or the new content; no half-written file sits at a data path; no pack is paired with the index
+of a different pack. -/
 structure Recoverable (spec : Spec) (G : Nat → List Nat) (s0 s : FS) : Prop where
   refs : ∀ r, RefOldOrNew spec s0 s r
   consistent : ∀ o, Reach G s o → Vis s o
   kept : ∀ o, Reach G s0 o → Vis s o
   plain : ∀ n, PlainOldOrNew spec s0 s n
   typed : ∀ p c, s p = some c → typedB p c = true
+  paired : ∀ p, PairedAt s p
 
 /-! ## The executable checker -/
 
@@ -281,6 +290,18 @@ def typedOK (K' : Known) (t : Path) : Bool :=
   | some none => true
   | none => false
 
+/-- after the step, the pack/index pair a touched path belongs to is known and matches -/
+def pairOK (K' : Known) : Path → Bool
+  | .pack p => (match lk K' (.pack p), lk K' (.idx p) with
+      | some (some (.packData k)), some (some (.idxData k' _)) => k == k'
+      | some _, some _ => true
+      | _, _ => false)
+  | .idx p => (match lk K' (.pack p), lk K' (.idx p) with
+      | some (some (.packData k)), some (some (.idxData k' _)) => k == k'
+      | some _, some _ => true
+      | _, _ => false)
+  | _ => true
+
 def objsOK (spec : Spec) (K K' : Known) (t : Path) : Bool :=
   match mayLose K t with
   | some l => l.all (fun o => visK K' o || spec.garbage.contains o)
@@ -309,7 +330,7 @@ def plainOK (spec : Spec) (K0 K' : Known) : Path → Bool
 
 def safeStep (spec : Spec) (K0 K K' : Known) (c : Call) : Bool :=
   (touched c).all (fun t =>
-    typedOK K' t && objsOK spec K K' t && refsOK spec K0 K K' t && plainOK spec K0 K' t)
+    typedOK K' t && objsOK spec K K' t && refsOK spec K0 K K' t && plainOK spec K0 K' t && pairOK K' t)
 
 def go (spec : Spec) (K0 : Known) : Known → List Call → Bool
   | _, [] => true
@@ -344,6 +365,13 @@ def refIds (K : Known) : List Nat :=
     | .packedRefs, some (.packed m) => m.map Prod.fst
     | _, _ => [])
 
+/-- closed world: the pack/index pair named by an entry's path matches (or is not a pair) -/
+def pairC (K : Known) : Path → Bool
+  | .pack p => (match (lk K (.pack p)).getD none, (lk K (.idx p)).getD none with
+      | some (.packData k), some (.idxData k' _) => k == k'
+      | _, _ => true)
+  | _ => true
+
 def rawRefC (K : Known) (r : Nat) : Option RefV :=
   match lk K (.ref r) with
   | some (some c) => some (looseRef c)
@@ -375,7 +403,8 @@ def recoverableK (spec : Spec) (K0 K : Known) : Bool :=
     | _ => true) &&
   K.all (fun e => match lk K e.1 with
     | some (some c) => typedB e.1 c
-    | _ => true)
+    | _ => true) &&
+  K.all (fun e => pairC K e.1)
 
 /-- The object graph a spec denotes (objects it does not list refer to nothing). -/
 def graphOf (spec : Spec) : Nat → List Nat := fun o => (spec.edges.lookup o).getD []
@@ -388,6 +417,7 @@ def preK (spec : Spec) : Bool :=
     | _ => true) &&
   spec.known.all (fun e => match lk spec.known e.1 with
     | some (some c) => typedB e.1 c
-    | _ => true)
+    | _ => true) &&
+  spec.known.all (fun e => pairC spec.known e.1)
 
 end Dulwich.Crash
